@@ -23,6 +23,11 @@ type solver struct {
 	Time    time.Duration
 	Errors  []string
 	log     *os.File
+	// transcript of the current path's base-level commands (for re-asking another solver)
+	transcript []string
+	record     bool
+	depth      int
+	Fallbacks  int64
 }
 
 func newSolver(bin string, timeoutMs int, logPath string) *solver {
@@ -71,6 +76,14 @@ func (s *solver) close() {
 }
 
 func (s *solver) send(l string) {
+	if s.depth == 0 && s.record {
+		s.transcript = append(s.transcript, l)
+	}
+	if strings.HasPrefix(l, "(push") {
+		s.depth++
+	} else if strings.HasPrefix(l, "(pop") {
+		s.depth--
+	}
 	s.in.WriteString(l)
 	s.in.WriteByte('\n')
 	if s.log != nil {
@@ -243,4 +256,50 @@ func (e *sexp) String() string {
 		parts = append(parts, c.String())
 	}
 	return "(" + strings.Join(parts, " ") + ")"
+}
+
+// askOther re-asks the current path condition plus extra on another solver binary (one-shot).
+// Used only when the primary solver answers unknown.
+func (s *solver) askOther(bin string, extra string, timeoutMs int, names []string) (string, string) {
+	var b strings.Builder
+	if strings.Contains(bin, "cvc5") {
+		b.WriteString("(set-logic ALL)\n(set-option :produce-models true)\n")
+	}
+	for _, l := range s.transcript {
+		if strings.HasPrefix(l, "(push") || strings.HasPrefix(l, "(pop") || strings.HasPrefix(l, "(reset") || strings.HasPrefix(l, "(set-") {
+			continue
+		}
+		b.WriteString(l + "\n")
+	}
+	if extra != "" {
+		b.WriteString("(assert " + extra + ")\n")
+	}
+	b.WriteString("(check-sat)\n")
+	if len(names) > 0 {
+		b.WriteString("(get-value (" + strings.Join(names, " ") + "))\n")
+	}
+	var args []string
+	if strings.Contains(bin, "cvc5") {
+		args = []string{"--strings-exp", "--lang=smt2", fmt.Sprintf("--tlimit=%d", timeoutMs)}
+	} else {
+		args = []string{"-in", fmt.Sprintf("-T:%d", timeoutMs/1000+1)}
+	}
+	cmd := exec.Command(bin, args...)
+	cmd.Stdin = strings.NewReader(b.String())
+	out, _ := cmd.Output()
+	s.Fallbacks++
+	txt := string(out)
+	lines := strings.SplitN(strings.TrimSpace(txt), "\n", 2)
+	if len(lines) == 0 {
+		return "unknown", ""
+	}
+	res := strings.TrimSpace(lines[0])
+	if res != "sat" && res != "unsat" {
+		return "unknown", ""
+	}
+	rest := ""
+	if len(lines) > 1 {
+		rest = lines[1]
+	}
+	return res, rest
 }
